@@ -755,4 +755,10 @@ func main() {
 		kcases = append(kcases, kc...)
 	}
 	res.WriteCases("From GL Require Import Store.Crash Corr.C04Run.", "c04case", "mismatches", kcases, 16)
+	// (K) byte level: journal file bytes of crash images against the model's recover_bytes
+	nb := 16
+	if a.Thorough() {
+		nb = 64
+	}
+	writeByteCases(res, a.Out, kByteCases(root, res, nb, 120000), 16)
 }
